@@ -26,35 +26,35 @@ open Pilota Pilota.Thrift Pilota.TGen
 well typed and lies in the projection's domain, decoding its encoding yields exactly the projection
 and consumes exactly its bytes. -/
 theorem tolerant_binary (e : Endian) (dp : Option Nat) (d : Doc) (n : String) (w v : TVal) (rest : Bytes) (f : Nat)
-    (hw : w.wt = true) (hp : projTy d dp f (.ref n) w = some (.ok v)) :
+    (hed : EndianOk e dp) (hw : w.wt = true) (hp : projTy d dp f (.ref n) w = some (.ok v)) :
     ∃ g, decTy (binRd e dp) d g (.ref n) (Binary.run e w.ops ++ rest) = .ok (v, rest) ∧
       ∀ g', g ≤ g' → decTy (binRd e dp) d g' (.ref n) (Binary.run e w.ops ++ rest) = .ok (v, rest) := by
   rw [Binary.run_ops]
   refine ⟨f, ?_, ?_⟩
-  · exact (corr_all e dp d f).1 (.ref n) w rest (.ok v) hw hp
+  · exact (corr_all e dp d hed f).1 (.ref n) w rest (.ok v) hw hp
   · intro g' hg
-    exact (corr_all e dp d g').1 (.ref n) w rest (.ok v) hw (projTy_mono d dp f g' hg _ w v hp)
+    exact (corr_all e dp d hed g').1 (.ref n) w rest (.ok v) hw (projTy_mono d dp f g' hg _ w v hp)
 
 /-- the same at the budget the emitted `decode` entry point really uses, for errors as well as values:
 the outcome of `decode` IS the projection's outcome. -/
 theorem decode_is_projection (e : Endian) (dp : Option Nat) (d : Doc) (n : String) (w : TVal) (rest : Bytes) (o : Out TVal)
-    (hw : w.wt = true)
+    (hed : EndianOk e dp) (hw : w.wt = true)
     (hp : projTy d dp (3 * (Binary.run e w.ops ++ rest).length + 8) (.ref n) w = some o) :
     decode (binRd e dp) d n (Binary.run e w.ops ++ rest) = withRest rest o := by
   unfold decode
   have : (binRd e dp).remaining (Binary.run e w.ops ++ rest) = (Binary.run e w.ops ++ rest).length := rfl
   rw [this]
-  have h := (corr_all e dp d _).1 (.ref n) w rest o hw hp
+  have h := (corr_all e dp d hed _).1 (.ref n) w rest o hw hp
   rw [Binary.run_ops] at h ⊢
   exact h
 
 /-- never a wrong value: in the domain, a successful decode can only return the projection. -/
 theorem no_wrong_value (e : Endian) (dp : Option Nat) (d : Doc) (n : String) (w : TVal) (rest : Bytes) (o : Out TVal)
-    (got : TVal) (r : Bytes) (hw : w.wt = true)
+    (got : TVal) (r : Bytes) (hed : EndianOk e dp) (hw : w.wt = true)
     (hp : projTy d dp (3 * (Binary.run e w.ops ++ rest).length + 8) (.ref n) w = some o)
     (hd : decode (binRd e dp) d n (Binary.run e w.ops ++ rest) = .ok (got, r)) :
     o = .ok got ∧ r = rest := by
-  rw [decode_is_projection e dp d n w rest o hw hp] at hd
+  rw [decode_is_projection e dp d n w rest o hed hw hp] at hd
   cases o <;> simp [withRest, mapOut] at hd
   exact ⟨by rw [hd.1], hd.2.symm⟩
 
